@@ -179,7 +179,9 @@ fn switches<C: ScriptContext>(node: &Node, ctx: Ctx, text: &str, rep: &mut Repor
         }
     }
     // numeric limits around the script's own figures
-    let size = ms.script_size();
+    // (the script's real length from the own encoder where the keys are concrete; the size
+    // switch must cut exactly there, whatever the library's own size arithmetic says)
+    let size = encode(node, ctx).map(|b| b.len()).unwrap_or_else(|_| ms.script_size());
     let mut lim = |f: &dyn Fn(&mut ValidationParams, usize), actual: usize, name: &str, errname: &str| -> Result<(), Failure> {
         let mut p = ValidationParams::MAX;
         f(&mut p, actual);
